@@ -281,6 +281,15 @@ func parseContractText(text, path, importPath string) (pc *PkgContracts, err err
 			case "import":
 				pc.Imports = append(pc.Imports, rest)
 				cur = nil
+			case "byref":
+				// byref TypeName, …: values of these struct types are heap objects identified with references (a
+				// field of such a type is the object embedded in its owner; assignment copies field by field)
+				for _, n := range strings.Split(rest, ",") {
+					if n = strings.TrimSpace(n); n != "" {
+						userByRef[importPath+"."+n] = true
+					}
+				}
+				cur = nil
 			case "spec", "pred":
 				cur = nil
 				opaque := false
@@ -545,6 +554,14 @@ func parseContractText(text, path, importPath string) (pc *PkgContracts, err err
 				case "at":
 					// at ANCHOR: ghost x = e | assert e | assume e
 					k := strings.Index(rest, ": ")
+					if q := strings.Index(rest, "\""); q >= 0 && q < k {
+						// the anchor quotes a statement, which may contain ": " itself
+						if q2 := strings.Index(rest[q+1:], "\""); q2 >= 0 {
+							if k2 := strings.Index(rest[q+1+q2:], ": "); k2 >= 0 {
+								k = q + 1 + q2 + k2
+							}
+						}
+					}
 					if k < 0 {
 						panic(fmt.Errorf("at ANCHOR: stmt"))
 					}
